@@ -497,6 +497,41 @@ pub fn apply(kind: &str, cur: &str, rng: &mut Rng) -> Option<String> {
             // Attribute edits: inline hints, derive lists, adding / removing an attribute line.
             let attr_lines: Vec<usize> = lines.iter().enumerate().filter(|(_, l)| l.trim_start().starts_with("#[")).map(|(i, _)| i).collect();
             let fn_lines: Vec<usize> = lines.iter().enumerate().filter(|(_, l)| l.starts_with("fn ") || l.starts_with("pub fn ")).map(|(i, _)| i).collect();
+            // Event field kinds of the Starknet plugin: `#[key]` on a member of an event struct,
+            // `#[flat]` on a variant of an event enum (the generated code and the plugin's aux data
+            // change, the set of generated files does not).
+            let mut event_fields: Vec<(usize, bool)> = vec![]; // (line of the member / variant, is enum)
+            {
+                let mut i = 0;
+                while i < n {
+                    if lines[i].contains("starknet::Event") && lines[i].trim_start().starts_with("#[derive(") {
+                        if let Some(open) = (i + 1..n.min(i + 4)).find(|k| lines[*k].trim_end().ends_with('{')) {
+                            let is_enum = lines[open].contains("enum ");
+                            if let Some(close) = (open + 1..n).find(|k| lines[*k].trim() == "}") {
+                                for k in open + 1..close {
+                                    let t = lines[k].trim();
+                                    if !t.starts_with("#[") && !t.starts_with("//") && t.contains(": ") && t.ends_with(',') {
+                                        event_fields.push((k, is_enum));
+                                    }
+                                }
+                                i = close;
+                            }
+                        }
+                    }
+                    i += 1;
+                }
+            }
+            if !event_fields.is_empty() && rng.chance(1, 3) {
+                let (k, is_enum) = event_fields[rng.below(event_fields.len())];
+                let attr = if is_enum { "#[flat]" } else { "#[key]" };
+                if k > 0 && lines[k - 1].trim() == attr {
+                    lines.remove(k - 1);
+                } else {
+                    let indent = lines[k].len() - lines[k].trim_start().len();
+                    lines.insert(k, format!("{}{attr}", " ".repeat(indent)));
+                }
+                return Some(join(&lines));
+            }
             match rng.below(4) {
                 0 if !attr_lines.is_empty() => {
                     let i = attr_lines[rng.below(attr_lines.len())];
